@@ -118,20 +118,25 @@ func (m *SegmentUInt64Map[V]) SetWithCap(key uint64, value V, capacity int64) {
 	offset := int((key * 0xff51afd7ed558ccd) >> 40) //nolint:gosec // G115 - masked to bucket range by EvictKeysAt
 
 	segment.rwlock.Lock()
+	verifGate(verifLocked, segIdx, key, 0)
 	oldSize := segment.data.Len()
 	segment.data.Put(key, value)
 	if segment.data.Len() > oldSize {
 		m.count.Add(1)
 	}
+	verifGate(verifPutAdded, segIdx, key, 0)
 	deficit := 0
 	if m.count.Load() > capacity {
+		verifGate(verifOverCap, segIdx, key, 0)
 		d := segment.data.EvictKeysAt(offset, 2, key)
 		if d > 0 {
 			m.count.Add(int64(-d))
 		}
 		deficit = 2 - d
 	}
+	verifGate(verifUnlocking, segIdx, key, deficit)
 	segment.rwlock.Unlock()
+	verifGate(verifUnlocked, segIdx, key, deficit)
 
 	if deficit <= 0 {
 		return
@@ -148,14 +153,17 @@ func (m *SegmentUInt64Map[V]) SetWithCap(key uint64, value V, capacity int64) {
 		}
 		next := m.segments[(segIdx+i)&uint(m.segmentMask)] //nolint:gosec // G115 - segmentMask ensures valid range
 
+		verifGate(verifSpillLock, (segIdx+i)&uint(m.segmentMask), key, deficit) //nolint:gosec // G115
 		next.rwlock.Lock()
 		d := next.data.EvictKeysAt(offset, deficit, key)
 		next.rwlock.Unlock()
+		verifGate(verifSpillEvicted, (segIdx+i)&uint(m.segmentMask), key, d) //nolint:gosec // G115
 
 		if d > 0 {
 			m.count.Add(int64(-d))
 			deficit -= d
 		}
+		verifGate(verifSpillSubbed, (segIdx+i)&uint(m.segmentMask), key, deficit) //nolint:gosec // G115
 	}
 }
 
